@@ -57,19 +57,34 @@ impl Certificate {
 		format!("{}_{}", self.crt_name, self.key_type)
 	}
 
-	pub fn get_identifier_from_str(&self, identifier: &str) -> Result<Identifier, Error> {
+	pub fn get_identifier_from_str(
+		&self,
+		identifier: &str,
+		wildcard: bool,
+	) -> Result<Identifier, Error> {
 		let identifier = identifier.to_string();
+		let mut fallback = None;
 		for d in self.identifiers.iter() {
-			let val = match d.id_type {
+			let (val, is_wildcard) = match d.id_type {
 				// strip wildcards from domain before matching
-				IdentifierType::Dns => d.value.trim_start_matches("*.").to_string(),
-				IdentifierType::Ip => d.value.to_owned(),
+				IdentifierType::Dns => (
+					d.value.trim_start_matches("*.").to_string(),
+					d.value.starts_with("*."),
+				),
+				IdentifierType::Ip => (d.value.to_owned(), false),
 			};
 			if identifier == val {
-				return Ok(d.clone());
+				// a name and its wildcard share the same authorization identifier:
+				// prefer the entry matching the authorization's wildcard flag
+				if is_wildcard == wildcard {
+					return Ok(d.clone());
+				}
+				if fallback.is_none() {
+					fallback = Some(d.clone());
+				}
 			}
 		}
-		Err(format!("{identifier}: identifier not found").into())
+		fallback.ok_or_else(|| format!("{identifier}: identifier not found").into())
 	}
 
 	fn renew_in(&self, cert: &X509Certificate) -> Result<Duration, Error> {
@@ -142,9 +157,8 @@ impl Certificate {
 		file_name: &str,
 		proof: &str,
 		raw_proof: Option<String>,
-		identifier: &str,
+		identifier: &Identifier,
 	) -> Result<(ChallengeHookData, HookType), Error> {
-		let identifier = self.get_identifier_from_str(identifier)?;
 		let mut hook_data = ChallengeHookData {
 			challenge: identifier.challenge.to_string(),
 			identifier: identifier.value.to_owned(),
